@@ -20,7 +20,7 @@ RULE = (
     "(3 distinct objects per id, so duplicates and same-id-different-object are frequent) followed by 1-30 "
     "operations (append, insert, extend, +=, -=, +, -, add, union, item/slice assignment and deletion incl. "
     "extended slices, pop, remove, sort, reverse, copy, deepcopy, pickle, slicing, query, get_by_any, "
-    "boolean mask, constructor) with every integer argument in [-len-2, len+2]; thorough tier adds the "
+    "boolean mask, constructor, list_attr, single-argument get_by_any incl. unsupported types, attribute access by id, dir) with every integer argument in [-len-2, len+2]; thorough tier adds the "
     "exhaustive enumeration of all sequences of <=3 index-bearing operations on lists of length <=3. "
     "Oracle: plain Python list + uniqueness rule, audited after every step through get_by_id/index/in/has_id/"
     "iteration/len. Non-trivial: the trace contains a negative or out-of-range index, or an operation that "
@@ -79,6 +79,10 @@ def _op_strategy():
         st.tuples(st.just("get_by_any"), st.lists(st.tuples(st.sampled_from(["int", "el_id", "el", "pool_id"]), _idx), max_size=3)),
         st.tuples(st.just("mask"), st.lists(st.booleans(), min_size=8, max_size=8)),
         st.tuples(st.just("ctor"), _objs),
+        st.tuples(st.just("list_attr")),
+        st.tuples(st.just("get_by_any1"), st.sampled_from(["int", "el_id", "el", "pool_id", "bad_float", "bad_none"]), _idx),
+        st.tuples(st.just("getattr"), st.sampled_from(["el_id", "pool_id"]), _idx),
+        st.tuples(st.just("dir")),
     )
 
 
@@ -456,6 +460,55 @@ class _Run:
                 raise PropertyViolation("ctor:outcome", f"DictList(iterable) raised={raised}, unique={_uniq(xs)}")
             if not raised:
                 self.audit(res, xs, "ctor:result")
+        elif name == "list_attr":
+            try:
+                got = dl.list_attr("id")
+            except Exception as e:  # noqa: BLE001
+                raise PropertyViolation("list_attr:unexpected-raise", f"list_attr raised {type(e).__name__}: {e}")
+            if got != [o.id for o in ref]:
+                raise PropertyViolation("list_attr:wrong-result", f"list_attr('id') gave {got!r}")
+        elif name == "get_by_any1":
+            # the documented single-argument form: an index, an identifier or an element that is not wrapped in a list
+            kind = op[1]
+            if kind.startswith("bad"):
+                x, want = (1.5 if kind == "bad_float" else None), None
+            elif kind == "int":
+                x = ix(op[2])
+                want = ref[x] if -n <= x < n else None
+            else:
+                x = self.sel(kind, op[2])
+                want = next((o for o in ref if (o.id == x if isinstance(x, str) else o is x)), None)
+            try:
+                got = dl.get_by_any(x)
+                raised = None
+            except Exception as e:  # noqa: BLE001
+                raised, got = e, None
+            if want is None:
+                if raised is None:
+                    raise PropertyViolation("get_by_any1:missing-raise", f"get_by_any({x!r}) returned {got!r} for something the list does not hold")
+                self._raised = True
+            elif raised is not None:
+                raise PropertyViolation("get_by_any1:unexpected-raise", f"get_by_any({x!r}) raised {type(raised).__name__}: {raised}")
+            elif not (isinstance(got, list) and len(got) == 1 and got[0] is want):
+                raise PropertyViolation("get_by_any1:wrong-result", f"get_by_any({x!r}) wrong: {got!r}")
+        elif name == "getattr":
+            x = self.sel(op[1], op[2])
+            want = next((o for o in ref if o.id == x), None)
+            try:
+                got = getattr(dl, x)
+                raised = None
+            except AttributeError as e:
+                raised, got = e, None
+            except Exception as e:  # noqa: BLE001
+                raise PropertyViolation("getattr:unexpected-raise", f"attribute access by id {x!r} raised {type(e).__name__}: {e}")
+            if want is None and raised is None:
+                raise PropertyViolation("getattr:ghost", f"attribute access found absent id {x!r}")
+            if want is not None and got is not want:
+                raise PropertyViolation("getattr:lookup", f"attribute access by id {x!r} did not return the element")
+        elif name == "dir":
+            listed = set(dir(dl)) & set(IDS)
+            if listed != ids:
+                raise PropertyViolation("dir:wrong-result", f"dir() lists ids {sorted(listed)}, list holds {sorted(ids)}")
         else:  # pragma: no cover
             raise AssertionError(op)
         self.audit_all(f"{name}:after")
